@@ -7,7 +7,7 @@ cd /verif
 prop=$(python3 -c "import json;print(json.load(open('seeded/$id/meta.json'))['property'])" 2>/dev/null || echo ${id:0:3})
 wt=/tmp/wt-main
 [ -d $wt ] || git -C /repo worktree add --detach $wt HEAD >/dev/null 2>&1
-(cd $wt && git checkout -q --detach $(git -C /repo rev-parse HEAD) && git checkout -q -- . && git clean -fdq)
+(cd $wt && git reset -q --hard && git checkout -q --detach $(git -C /repo rev-parse HEAD) && git clean -fdq)
 patch=seeded/$id/patch.diff; [ -f seeded/$id/patch.head.diff ] && patch=seeded/$id/patch.head.diff
 (cd $wt && git apply /verif/$patch) || { echo "PATCH DOES NOT APPLY"; exit 2; }
 only=""
